@@ -13,24 +13,33 @@ SHARDS = 16
 WIDTH = 3
 
 
-def shapes(depth, width, maxleaves):
-    """All rule lists with at most `depth` levels of lists, 1..width elements per list and at most maxleaves basic rules.
-    Returns [(text, leaves)]; an element is 'b', 'a(list)' or 'o(list)'."""
+def shapes_by_leaves(depth, width, maxleaves):
+    """All rule lists with at most `depth` levels of lists, 1..width elements per list and at most maxleaves basic rules,
+    as {number of basic rules: [text]}; an element is 'b', 'a(list)' or 'o(list)'."""
     if depth == 0:
-        return []
-    sub = shapes(depth - 1, width, maxleaves - 0)
-    elems = [('b', 1)] + [(k + '(' + t + ')', n) for t, n in sub for k in 'ao']
-    out = []
-    cur = [('', 0)]
+        return {}
+    sub = shapes_by_leaves(depth - 1, width, maxleaves)
+    elems = {1: ['b']}
+    for n, ts in sub.items():
+        elems.setdefault(n, []).extend(k + '(' + t + ')' for t in ts for k in 'ao')
+    out = {}
+    cur = {0: ['']}
     for _ in range(width):
-        nxt = []
-        for t, n in cur:
-            for et, en in elems:
+        nxt = {}
+        for n, ts in cur.items():
+            for en, ets in elems.items():
                 if n + en <= maxleaves:
-                    nxt.append((t + et, n + en))
-        out.extend(nxt)
+                    nxt.setdefault(n + en, []).extend(t + et for t in ts for et in ets)
+        for n, ts in nxt.items():
+            out.setdefault(n, []).extend(ts)
         cur = nxt
     return out
+
+
+def shapes(depth, width, maxleaves, minleaves=1):
+    """Same as [(text, leaves)]."""
+    by = shapes_by_leaves(depth, width, maxleaves)
+    return [(t, n) for n in sorted(by) if n >= minleaves for t in by[n]]
 
 
 def rand_list(rng, depth, budget):
@@ -59,11 +68,13 @@ def chains(pool, length):
 
 
 def plan(ctx):
-    """Returns (lines, description of the exhaustive space, expected number of exhaustive cases, number of random cases)."""
+    """Returns (lines, description of the exhaustive space, expected number of exhaustive cases, description of the path-exhaustive
+    space, number of path-exhaustive shapes, number of random cases)."""
     quick = ctx.tier == 'quick'
     lines = []
-    space = []
+    space, pspace = [], []
     expect = 0
+    npath = 0
 
     def add(cases, what):
         nonlocal expect
@@ -72,27 +83,36 @@ def plan(ctx):
         space.append('%s: %d shapes, %d cases' % (what, len(cases), n))
         lines.extend('E ' + t for t, _ in cases)
 
-    # single policies
-    depth, leaves = (3, 4) if quick else (3, 6)
-    single = shapes(depth, WIDTH, leaves)
-    add(single, 'single policies: all rule trees with <= %d nested list levels, 1..%d elements per list, <= %d basic rules '
-        'x all 5^k outcome assignments' % (depth, WIDTH, leaves))
-    if quick:
-        have = set(t for t, _ in single)
-        add([x for x in shapes(2, WIDTH, 6) if x[0] not in have], 'single policies: additionally all rule trees with <= 2 nested list levels, '
-            '1..%d elements per list, 5..6 basic rules x all 5^k outcome assignments' % WIDTH)
-    # fallback chains (1..3 fallbacks) over pools of small policies
+    def addp(cases, what):
+        nonlocal npath
+        npath += len(cases)
+        pspace.append('%s: %d shapes' % (what, len(cases)))
+        lines.extend('P ' + t for t, _ in cases)
+
     p_d2l2 = shapes(2, WIDTH, 2)     # 14 shapes: b, a(b), o(b), bb, ba(b), ..., a(bb), o(bb)
     p_d3l1 = shapes(3, WIDTH, 1)     # 7 shapes: b and its unary AND/OR wrappers
-    p_d2l3 = shapes(2, WIDTH, 3)
+    p_d2l3 = shapes(2, WIDTH, 3)     # 55 shapes
+    tree = 'all rule trees with <= %d nested list levels, 1..%d elements per list, %s basic rules'
     if quick:
+        single = shapes(3, WIDTH, 4)
+        add(single, 'single policies: ' + tree % (3, WIDTH, '<= 4') + ' x all 5^k outcome assignments')
+        add(shapes(2, WIDTH, 6, 5), 'single policies: ' + tree % (2, WIDTH, '5..6') + ' x all 5^k outcome assignments')
         add(chains(p_d2l2, 2), 'primary + 1 fallback, each any tree with <= 2 levels and <= 2 basic rules')
         add(chains(p_d3l1, 3), 'primary + 2 fallbacks, each a single basic rule under <= 2 unary AND/OR wrappers')
         add(chains(p_d3l1, 4), 'primary + 3 fallbacks, each a single basic rule under <= 2 unary AND/OR wrappers')
+        addp(shapes(3, WIDTH, 5, 5), 'single policies: ' + tree % (3, WIDTH, '5'))
+        addp(chains(p_d2l2, 3), 'primary + 2 fallbacks, each any tree with <= 2 levels and <= 2 basic rules')
     else:
+        single = shapes(3, WIDTH, 5)
+        add(single, 'single policies: ' + tree % (3, WIDTH, '<= 5') + ' x all 5^k outcome assignments')
+        add(shapes(2, WIDTH, 6, 6), 'single policies: ' + tree % (2, WIDTH, '6') + ' x all 5^k outcome assignments')
         add(chains(p_d2l3, 2), 'primary + 1 fallback, each any tree with <= 2 levels and <= 3 basic rules')
         add(chains(p_d2l2, 3), 'primary + 2 fallbacks, each any tree with <= 2 levels and <= 2 basic rules')
         add(chains(p_d3l1, 4), 'primary + 3 fallbacks, each a single basic rule under <= 2 unary AND/OR wrappers')
+        have = set(t for t, _ in single)
+        addp(shapes(3, WIDTH, 7, 6), 'single policies: ' + tree % (3, WIDTH, '6..7'))
+        addp([x for x in shapes(4, WIDTH, 5) if x[0] not in have], 'single policies: ' + tree % (4, WIDTH, '<= 5') + ' (those with 4 levels)')
+        addp(chains(p_d2l2, 4), 'primary + 3 fallbacks, each any tree with <= 2 levels and <= 2 basic rules')
     # random larger trees: up to 40 basic rules / 6 levels in the primary policy, 0..3 fallbacks of up to 8 basic rules
     rng = random.Random('C05/%d' % ctx.seed)
     nchains, per = (3000, 300) if quick else (100000, 300)
@@ -106,10 +126,10 @@ def plan(ctx):
             n += fn
         rl.append('R %d %s' % (per, t))
         nrand += per
-    # interleave so that every shard gets the same mix
+    # line i goes to shard i % SHARDS: order by cost so that every shard gets the same mix
     lines.sort(key=lambda s: (len(s), s))
     lines.extend(rl)
-    return lines, space, expect, nrand
+    return lines, space, expect, pspace, npath, nrand
 
 
 def resources():
@@ -122,24 +142,28 @@ def run(ctx):
     exe = ctx.driver('c05_policy', ['c05_policy.c'])
     sig, pub = resources()
     ctx.require(os.path.exists(sig), 'signature resource %s present' % sig)
-    lines, space, expect, nrand = plan(ctx)
+    lines, space, expect, pspace, npath, nrand = plan(ctx)
     casefile = os.path.join(ctx.work, 'cases.txt')
     with open(casefile, 'w') as fh:
         fh.write('\n'.join(lines) + '\n')
     ctx.rule = ('policies built with KSI_Policy_create/KSI_Policy_setFallback from generated KSI_Rule arrays (basic / AND / OR, terminated by the '
                 'empty rule) whose basic rules are 64 instrumented stubs; exhaustive part: every listed tree shape x every assignment of the '
-                'five outcomes (OK, NA, FAIL, internal error, KSI_OK without touching the result) to its basic rules; random part: trees with up '
+                'five outcomes (OK, NA, FAIL, internal error, KSI_OK without touching the result) to its basic rules; path-exhaustive part: for every listed '
+                'tree shape every distinct execution path (assignments of the five outcomes that differ only in rules which were not invoked are run '
+                'once, those rules held at OK); random part: trees with up '
                 'to 40 basic rules and 6 list levels + 0..3 fallbacks, biased random assignments of 8 outcome variants. Compared with the '
                 'reference interpreter per case: exact invocation sequence, return code, no verdict on internal error, finalResult '
                 'result/error code/rule name/policy name, policyResults entries, temp data cleared before a fallback. '
-                'distinct = (chain shape, executed path = invoked rules with their outcomes).')
+                'distinct = (chain shape, executed path = invoked rules with their outcomes), at most 400000 recorded per shard (lower bound).')
     ctx.assumptions = ['reference interpreter in harness/c05_policy.c (ref_list/ref_chain), written from the KSI_RULE_TYPE_* documentation in policy.h '
                        'and the property statement',
                        'a basic rule that returns KSI_OK without touching the result counts as inconclusive (KSI_RuleVerificationResult_init default)',
+                       'path-exhaustive part only: the library is deterministic and learns the outcome of a basic rule only by invoking it',
                        'empty rule arrays are outside the documented domain and are not generated',
                        'ASan+UBSan+LSan build of the library']
     ctx.extra['exhaustive_space'] = space
     ctx.extra['exhaustive_cases_expected'] = expect
+    ctx.extra['path_exhaustive_space'] = pspace
     ctx.extra['random_cases_planned'] = nrand
     # local work-around: the default 256 MB ASan quarantine makes 16 allocation-heavy shards spend most of their time in page faults;
     # 32 MB still keeps >100k freed result objects poisoned at any time
@@ -147,6 +171,7 @@ def run(ctx):
     fin = ctx.run_shards(exe, [['run', sig, pub, casefile, i, SHARDS, ctx.seed] for i in range(SHARDS)], timeout=7200, env=env)
     c = ctx.counters
     ctx.extra['exhaustive_cases_run'] = c.get('exhaustive_cases', 0)
+    ctx.extra['path_exhaustive_cases_run'] = c.get('path_cases', 0)
     complete = fin == SHARDS and c.get('exhaustive_cases', 0) == expect and c.get('skipped_out_of_domain', 0) == 0
     ctx.exhaustive = bool(complete)
     if ctx.violations or ctx.known_printed:
@@ -154,6 +179,7 @@ def run(ctx):
     ctx.require(fin == SHARDS, 'all shards finish')
     ctx.require(c.get('exhaustive_cases', 0) == expect, 'exhaustive part complete (%d of %d cases)' % (c.get('exhaustive_cases', 0), expect))
     ctx.require(c.get('random_cases', 0) == nrand, 'random part complete')
+    ctx.require(c.get('path_enumeration_aborted', 0) == 0 and c.get('path_cases', 0) >= 5 * npath, 'path-exhaustive part complete')
     ctx.require(c.get('skipped_out_of_domain', 0) == 0, 'no generated chain rejected by the driver')
     for k in ('final_OK', 'final_NA', 'final_FAIL', 'final_internal_error', 'final_NA_from_untouched_result'):
         ctx.require(c.get(k, 0) > 1000, 'every final outcome class observed (%s)' % k)
